@@ -260,9 +260,6 @@ Qed.
 (* ====================================================================================== *)
 (* field by field; every byte accounted for                                                *)
 (* ====================================================================================== *)
-Lemma sh_base_version : forall sh, d_version (h_base (sh_hist sh)) = match sh with SBase _ d => d_version d | SUpd _ _ => d_version (h_base (sh_hist sh)) end.
-Proof. destruct sh; reflexivity. Qed.
-
 Fixpoint sh_first (sh : shist) : doc := match sh with SBase _ d => d | SUpd sh' _ => sh_first sh' end.
 
 Lemma sh_hist_base : forall sh, d_version (h_base (sh_hist sh)) = d_version (sh_first sh).
@@ -334,6 +331,17 @@ Proof.
   - rewrite <- El. destruct (sh_hist sh); reflexivity.
 Qed.
 
+(* per identifier: the object the NEWEST revision listing that number has under it (h_merge_item h = the numbers
+   the revision's cross-reference section lists, and the normal forms of its objects) *)
+Theorem history_newest_wins sh n g :
+  sh_ok sh -> sh_strict sh ->
+  lookup (SR.s_objects (sdoc_of_history sh)) (n, g) =
+  match newest_listing (h_list h_merge_item (sh_hist sh)) n with
+  | Some objs => lookup objs (n, g)
+  | None => None
+  end.
+Proof. intros Hok Hst. destruct (sh_layout sh Hok Hst) as [_ [_ [Hd _]]]. apply sdoc_hist_lookup. exact Hd. Qed.
+
 Print Assumptions sh_ok_history.
 Print Assumptions history_sh.
 Print Assumptions sh_layout.
@@ -341,3 +349,4 @@ Print Assumptions strict_load_history.
 Print Assumptions history_update_step.
 Print Assumptions strict_load_history_fields.
 Print Assumptions all_bytes_accounted_history.
+Print Assumptions history_newest_wins.
